@@ -308,3 +308,5 @@ def run(ctx):
     boundaries.check_guards(ctx, 'C07.RG', 'C07')
     from .. import boundaries as _b
     _b.check_predicates(ctx, 'C07.RP', 'C07')
+    from .. import boundaries as _b
+    _b.check_counts(ctx, 'C07.RQ', 'C07')
